@@ -14,9 +14,16 @@ import (
 	"verif/internal/oracle/rx"
 )
 
+// ModeOp is one mode action: Push >= 0 pushes the current mode and enters mode
+// Push; Push < 0 pops.
+type ModeOp struct{ Push int }
+
 type Act struct {
-	Push    int  // mode index to push, -1 none
-	Pop     bool // pop mode
+	Push    int  // mode index to push, -1 none   (first push, kept for convenience)
+	Pop     bool // the rule pops at least once
+	// Ops are all mode actions of the rule in the order they were written;
+	// they take effect one after the other.
+	Ops     []ModeOp
 	Emit    int  // token type to emit, -1 none
 	Discard bool
 	// neither Emit nor Discard: accumulate
@@ -162,14 +169,24 @@ func (l *Lexer) Run(in []byte) *Result {
 		}
 		res.RulesFired[[2]int{mode, win}]++
 		act := rules[win].Act
-		if act.Push >= 0 {
-			stack = append(stack, mode)
-			mode = act.Push
-			if len(stack) > res.MaxDepth {
-				res.MaxDepth = len(stack)
+		ops := act.Ops
+		if ops == nil {
+			if act.Push >= 0 {
+				ops = append(ops, ModeOp{act.Push})
+			}
+			if act.Pop {
+				ops = append(ops, ModeOp{-1})
 			}
 		}
-		if act.Pop {
+		for _, op := range ops {
+			if op.Push >= 0 {
+				stack = append(stack, mode)
+				mode = op.Push
+				if len(stack) > res.MaxDepth {
+					res.MaxDepth = len(stack)
+				}
+				continue
+			}
 			if len(stack) == 0 {
 				res.PopEmpty = true
 				return res
